@@ -148,7 +148,7 @@ func checkCLIFiles(p *Program, r *Result) {
 			// the compare loop
 			var cmpLoop *RangeLoop
 			for _, l := range rangeLoops(mainFn) {
-				if !(l.Exit == call.Block() || l.Exit.Dominates(call.Block())) {
+				if !p.feasDominates(l.Exit, call.Block()) {
 					continue
 				}
 				// body contains a comparison elem == absPath(name) guarding a no-return call
@@ -183,7 +183,7 @@ func checkCLIFiles(p *Program, r *Result) {
 			}
 			if cmpLoop == nil {
 				r.Bad(mainFn.String(), "same-file:loop", r.pos(call), "newLazyOpener(name) is not dominated by a completed loop that aborts when an element of inUseFiles equals absPath(name)")
-			} else if len(cmpLoop.earlyExits()) != 0 {
+			} else if len(p.loopEarlyExits(cmpLoop)) != 0 {
 				r.Bad(mainFn.String(), "same-file:loop", r.pos(call), "the comparison loop can be left before all files in use were compared")
 			} else {
 				over := short(tb.Term(cmpLoop.Over).String())
@@ -247,7 +247,7 @@ func checkCLIFiles(p *Program, r *Result) {
 					if l == cmpLoop || !l.Exit.Dominates(cmpLoop.Header) {
 						continue
 					}
-					if len(l.earlyExits()) != 0 {
+					if len(p.loopEarlyExits(l)) != 0 {
 						r.Bad(mainFn.String(), "same-file:feeder", r.pos(l.Header.Instrs[0]), "a loop collecting files in use can be left early")
 					}
 				}
